@@ -201,11 +201,23 @@ func (w *World) checkLinkKeyEntry(n *Node, e iface.IPFSLogEntry, me *MEntry) {
 	}
 	// the entry API's own write options (pinned, written in its pre-signature form): whatever the
 	// options, a block written through the keyed codec must not expose the links
-	if k := r.Choose("republish-opts", 6); k < 3 {
-		opts := []*iface.CreateEntryOptions{{Pin: true}, {PreSigned: true}, {PreSigned: true, Pin: true}}[k]
+	if k := r.Choose("republish-opts", 6); k < 5 {
+		opts := []*iface.CreateEntryOptions{{Pin: true}, {PreSigned: true}, {PreSigned: true, Pin: true}, {}, {Pin: true}}[k]
 		from := len(w.St.Writes)
-		_, err := entry.ToMultihashWithIO(w.ctx, e, w.St, opts, w.IO)
-		r.Logf("  re-publish %s with options pin=%v presigned=%v err=%v", w.M.Name(me.Hash), opts.Pin, opts.PreSigned, err != nil)
+		var err error
+		if k < 3 {
+			_, err = entry.ToMultihashWithIO(w.ctx, e, w.St, opts, w.IO)
+		} else {
+			// the codec's own Write, as a wrapping codec or a re-publishing application calls it: with no options,
+			// or with options of its own making
+			var wo *iface.WriteOpts
+			if k == 4 {
+				wo = &iface.WriteOpts{Pin: true}
+			}
+			_, err = w.IO.Write(w.ctx, w.St, e.Copy(), wo)
+			r.Probe("linkkey-entry-written-through-the-codec-directly")
+		}
+		r.Logf("  re-publish %s with options pin=%v presigned=%v direct=%v err=%v", w.M.Name(me.Hash), opts.Pin, opts.PreSigned, k >= 3, err != nil)
 		r.Probe("linkkey-entry-written-with-options")
 		for _, wr := range w.St.Writes[from:] {
 			for _, h := range w.M.Order {
